@@ -639,7 +639,12 @@ class Batch:
     def add(self, case, label):
         ctx = self.ctx
         run = run_case(case)
-        self.items.append((case, run))
+        if label.startswith('growth') and len(case['ops']) > 50:
+            # many children: the real back-ends only (the list-based Lean models are super-linear in the number of
+            # children; the file's capacity is not part of them anyway)
+            ctx.count('growth:oracle-only')
+        else:
+            self.items.append((case, run))
         for s in case['specs']:
             ctx.count('kind:' + s['kind'] + ((':' + s['mode']) if s['kind'] == 'gauge' else ''))
             ctx.count('labels:%d' % len(s['labelnames']))
